@@ -7,7 +7,7 @@ export GOFLAGS=-mod=mod GOPROXY=off
 cd $WT || exit 2
 git checkout -q -- . ; git status --short | grep -v SEEDED
 demo=$S/demo${N}_test.go
-place=$(grep -m1 -i 'place in' $demo | sed 's/.*place in:* *//I; s/[` ]//g; s/\/$//')
+place=$(grep -m1 -i 'place in' $demo | grep -o 'pkg/[a-z_/]*' | head -1 | sed 's/\/$//')
 [ -z "$place" ] && place=pkg/provider
 name=zz_seeded_demo${N}_test.go
 echo "== $P patch$N (demo goes to $place)"
